@@ -536,6 +536,74 @@ pub fn main_cycles(a: &Args) -> i32 {
     0
 }
 
+/// wide lifetimes: every k <= --kmax x 3 orders x {no repeats, repeats} x {scope exit, unwinding} x spans
+pub fn main_wide(a: &Args) -> i32 {
+    let kmax: usize = a.extra.iter().position(|x| x == "--kmax").map(|i| a.extra[i + 1].parse().unwrap()).unwrap_or(48);
+    let pre = crate::e3_wide::init();
+    let mut items: Vec<(usize, usize, bool, bool, usize)> = Vec::new();
+    if let Some(path) = &a.replay {
+        let v: Value = vkit::serde_json::from_str(&std::fs::read_to_string(path).expect("replay file")).expect("json");
+        let c = &v["case"]["wide"];
+        items.push((c[0].as_u64().unwrap() as usize, c[1].as_u64().unwrap() as usize, c[2].as_bool().unwrap(), c[3].as_bool().unwrap(), c[4].as_u64().unwrap() as usize));
+    } else {
+        for k in 1..=kmax {
+            for ord in 0..3 {
+                for dup in [false, true] {
+                    for pe in [false, true] {
+                        for span in [1usize, 8] {
+                            if k * span + 8 <= crate::e3_wide::WIDE_SLOTS {
+                                items.push((k, ord, dup, pe, span));
+                            }
+                        }
+                    }
+                }
+            }
+        }
+        items = items.into_iter().enumerate().filter(|(i, _)| i % a.shard.1 == a.shard.0).map(|(_, x)| x).collect();
+    }
+    let outcomes = isolate::run(items.len(), 8, 120_000, |i| {
+        let (k, ord, dup, pe, span) = items[i];
+        let mut v = Vec::new();
+        let (n, refused) = crate::e3_wide::run_one(&pre, k, ord, dup, pe, span, &mut v);
+        let stop = !v.is_empty();
+        let j = json!({"steps": n, "refused": refused, "v": v.iter().map(|x| json!({"prop": x.prop, "key": x.key, "what": x.what})).collect::<Vec<_>>()});
+        (vkit::serde_json::to_vec(&j).unwrap(), stop)
+    });
+    let mut viols: Vec<Value> = Vec::new();
+    let mut counts: std::collections::BTreeMap<(String, String), usize> = Default::default();
+    let mut steps = 0u64;
+    let mut refused_lifetimes = 0u64;
+    for (i, o) in outcomes.iter().enumerate() {
+        let (k, ord, dup, pe, span) = items[i];
+        let case = json!([k, ord, dup, pe, span]);
+        let mut add = |prop: &str, key: &str, what: String, viols: &mut Vec<Value>| {
+            let c = counts.entry((prop.to_string(), key.to_string())).or_insert(0);
+            *c += 1;
+            if *c <= 3 {
+                viols.push(json!({"prop": prop, "key": key, "step": 0, "what": what, "history": [format!("wide:{case}")], "wide": case}));
+            }
+        };
+        match o {
+            Outcome::Done(b) => {
+                let v: Value = vkit::serde_json::from_slice(b).unwrap();
+                steps += v["steps"].as_u64().unwrap();
+                if v["refused"].as_bool() == Some(true) {
+                    refused_lifetimes += 1;
+                }
+                for x in v["v"].as_array().unwrap() {
+                    add(x["prop"].as_str().unwrap(), x["key"].as_str().unwrap(), x["what"].as_str().unwrap().to_string(), &mut viols);
+                }
+            }
+            Outcome::Signal(sig, _) | Outcome::Exit(sig, _) => add("*", &format!("wide:process-died-{sig}"), format!("the process died (signal/status {sig}) in the wide lifetime k={k} order={ord} dup={dup} panic_end={pe} span={span}"), &mut viols),
+            Outcome::Timeout(_) => add("*", "wide:hang", format!("no progress for 120 s in the wide lifetime k={k} order={ord} dup={dup} panic_end={pe} span={span}"), &mut viols),
+        }
+    }
+    let vc: Vec<Value> = counts.iter().map(|((p, k), n)| json!({"prop": p, "key": k, "count": n})).collect();
+    let out = json!({"engine": "e3", "family": "wide", "mounted": crate::envx::MOUNTED, "kmax": kmax, "lifetimes": items.len(), "refused_lifetimes": refused_lifetimes, "steps": steps, "violations": viols, "violation_counts": vc});
+    println!("{}", vkit::serde_json::to_string(&out).unwrap());
+    0
+}
+
 pub fn main() {
     vkit::proc::ensure_no_aslr();
     isolate::quiet_panics();
@@ -545,6 +613,7 @@ pub fn main() {
         "times" => main_times(&a),
         "async" => main_async(&a),
         "cycles" => main_cycles(&a),
+        "wide" => main_wide(&a),
         other => {
             eprintln!("e3: unknown family {other:?}");
             2
